@@ -15,7 +15,7 @@ from mc.models import intervals
 MOD = "mc.props.c01"
 POOL = [-(2**31), -300, -16, -1, 0, 1, 9, 10, 13, 65, 97, 255, 256, 2**31 - 1, 2**63]
 SMALL_POOL = [-300, -1, 0, 9, 10, 13, 65, 255, 2**31 - 1]
-CHAR_POOL = [34, 39, 44, 46, 58, 92, 122, 0x2025]  # characters that mean something to the range syntax or to string tokens, as quoted limits
+CHAR_POOL = [9, 32, 34, 39, 44, 46, 58, 92, 122, 0xA0, 0x2003, 0x2025]  # characters that mean something to the range syntax or to string tokens, as quoted limits
 DEC_POOL = ["-9999999999999999999.999999999999", "-2.50", "-1", "-0.01", "0", "0.5", "1", "1.50", "99.999", "9999999999999999999.999999999999"]
 FAR = 2**70
 TINY = decimal.Decimal("1E-30")
@@ -297,7 +297,7 @@ def run(ctx):
     items = [("empty",)]
     items += [("small", separator, first) for separator in range(3) for first in range(len(shapes))]
     plan = [(1, POOL, None if not quick else 3), (2, POOL, 3 if not quick else 2), (3, SMALL_POOL, 2 if not quick else 1), (4, SMALL_POOL, 2 if not quick else 1),
-            (1, CHAR_POOL, None), (2, CHAR_POOL, 3 if not quick else 2), (3, CHAR_POOL, 2 if not quick else 1)]
+            (1, CHAR_POOL, None), (2, CHAR_POOL, 3 if not quick else 2)] + ([(3, CHAR_POOL, 2)] if not quick else [])
     bound_text = {}
     for count, pool, bound in plan:
         all_structures = structures(pool, count)
